@@ -25,3 +25,16 @@ pub fn prng_switch_fields<S: rand::Rng>(
     let second = (0..n2).map(|_| prng.get()).collect();
     (first, second)
 }
+
+/// Start (`true`) or stop (`false`) recording the IDPF's `extend`/`convert` calls on this thread;
+/// stopping returns what was recorded as (kind, leaf mode, input seed, output bytes).
+#[cfg(all(feature = "crypto-dependencies", feature = "experimental"))]
+pub fn idpf_prg_log(start: bool) -> Vec<(u8, bool, [u8; 16], Vec<u8>)> {
+    crate::idpf::VERIF_PRG_LOG.with(|log| {
+        let old = log.borrow_mut().take();
+        if start {
+            *log.borrow_mut() = Some(Vec::new());
+        }
+        old.unwrap_or_default()
+    })
+}
